@@ -678,13 +678,53 @@ def gen_rrsig(ctx, rng):
     yield "rrsig", [3, [65536, 8, 1, 0, 0, 0, 0, [b""], b""], [b"a", b""], 1, 1, [[[b"\x01\x02\x03\x04"], [[5, b"\x01\x02\x03\x04"]]]], None]
 
 
+def r_text(labels):
+    """master-file text of a name (RFC 1035 5.1 escapes), written independently of dns.name"""
+    if labels == [b""]:
+        return b"."
+    out = []
+    for l in labels:
+        t = b""
+        for c in l:
+            if c in b'.\\"();@$':
+                t += b"\\" + bytes([c])
+            elif c < 0x21 or c > 0x7E:
+                t += b"\\%03d" % c
+            else:
+                t += bytes([c])
+        out.append(t)
+    return b".".join(out)
+
+
 def gen_ds(ctx, rng):
     for _ in range(ctx.n(150, 4000)):
-        owner = g_name(rng, rng.random() < 0.93, 4, 200)
+        owner = g_name(rng, rng.random() < 0.8, 4, 200)
         alg = rng.choice([1, 5, 8, 13, 15, rng.randrange(256)])
         key = rb(rng, 0, rng.choice([0, 3, 32, 64, 130]))
         dt = rng.choice([1, 2, 2, 4, 4, 0, 3, 5, 200])
-        yield "ds", [4, owner, rng.choice([256, 257, rng.randrange(65536)]), rng.choice([3, rng.randrange(256)]), alg, key, dt]
+        origin = g_origin(rng) if rng.random() < 0.6 else None
+        # owner as a Name object (absolute, or relative with/without an origin: only text is completed)
+        yield "ds", [4, owner, rng.choice([256, 257, rng.randrange(65536)]), rng.choice([3, rng.randrange(256)]), alg, key, dt, origin]
+    for _ in range(ctx.n(200, 4000)):
+        # owner as text: absolute text, relative text (+ origin), "@" (+ origin)
+        origin = g_origin(rng) if rng.random() < 0.85 else None
+        r = rng.random()
+        if r < 0.2:
+            labels, text = [], b"@"
+        else:
+            labels = g_name(rng, r < 0.45, 3, 100)
+            if not labels:
+                labels, text = [], b"@"
+            else:
+                text = r_text(labels)
+        alg = rng.choice([1, 8, 13, 15])
+        key = rb(rng, 0, rng.choice([0, 3, 32, 64]))
+        dt = rng.choice([1, 2, 2, 4, 4, 4, 3, 0])
+        yield "ds-text", [11, text, origin, rng.choice([256, 257]), 3, alg, key, dt, labels]
+    ex = [b"example", b"ORG", b""]
+    for dt in (1, 2, 4):
+        for text, labels in ((b"child", [b"child"]), (b"@", []), (b"Child.example.org.", [b"Child", b"example", b"org", b""]), (b"a.b", [b"a", b"b"])):
+            yield "ds-text", [11, text, ex, 257, 3, 8, b"\x01\x02\x03", dt, labels]
 
 
 def nsec3_table(name, salt, iterations):
@@ -1086,21 +1126,55 @@ def impl(case):
             if a != b:
                 return Err(906, "signing data differs between the (name, rdataset) and the RRset form")
             return a
+        if op == 11:
+            _, text, origin, flags, protocol, alg, key, dt, _labels = case
+            o = nl.oname(origin)
+            name = bytes(text).decode("ascii")
+            results = []
+            for ty in (48, 60):  # DNSKEY and CDNSKEY
+                k = dns.rdata.get_rdata_class(1, ty)(1, ty, flags, protocol, alg, bytes(key))
+                Rec.log = []
+                saved = dns.dnssec.hashlib
+                dns.dnssec.hashlib = FakeHashlib()
+                try:
+                    ds = dns.dnssec.make_ds(name, k, dt, origin=o, policy=dns.dnssec.allow_all_policy)
+                finally:
+                    dns.dnssec.hashlib = saved
+                    log, Rec.log = Rec.log, None
+                if len(log) != 1:
+                    return Err(903, "make_ds did not hash exactly once")
+                real = {1: hashlib.sha1, 2: hashlib.sha256, 4: hashlib.sha384}[dt](log[0]).digest()
+                results.append((log[0], ds.key_tag, int(ds.algorithm), int(ds.digest_type), ds.digest, ds.digest == real))
+            ok = results[0] == results[1] and results[0][5]
+            inp, tag, a, d, digest, _ = results[0]
+            k = dns.rdata.get_rdata_class(1, 48)(1, 48, flags, protocol, alg, bytes(key))
+            if dt != 1:  # the other entry points use the default policy (no SHA-1 creation)
+                cds = dns.dnssec.make_cds(name, k, dt, o)
+                ok = ok and (cds.key_tag, cds.algorithm, cds.digest_type, cds.digest, int(cds.rdtype)) == (tag, a, d, digest, 59)
+                rds = dns.rdataset.Rdataset(1, 48)
+                rds.add(k, 300)
+                c2 = dns.dnssec.dnskey_rdataset_to_cds_rdataset(name, rds, dt, o)
+                ok = ok and len(c2) == 1 and c2[0].digest == digest and int(c2[0].rdtype) == 59
+                c3 = dns.dnssec.make_ds_rdataset((name, rds), {dt}, o)
+                ok = ok and len(c3) == 1 and c3[0].digest == digest and c3[0].key_tag == tag
+                c4 = dns.dnssec.make_ds_rdataset((name, rds), {{2: "SHA256", 4: "sha384"}[dt]}, o)
+                ok = ok and len(c4) == 1 and c4[0].digest == digest
+            return [inp, tag, a, d, int(bool(ok))]
         if op == 4:
-            _, owner, flags, protocol, alg, key, dt = case
+            _, owner, flags, protocol, alg, key, dt, origin = case
             k = dns.rdata.get_rdata_class(1, 48)(1, 48, flags, protocol, alg, bytes(key))
             Rec.log = []
             saved = dns.dnssec.hashlib
             dns.dnssec.hashlib = FakeHashlib()
             try:
-                ds = dns.dnssec.make_ds(N(owner), k, dt, policy=dns.dnssec.allow_all_policy)
+                ds = dns.dnssec.make_ds(N(owner), k, dt, origin=nl.oname(origin), policy=dns.dnssec.allow_all_policy)
             finally:
                 dns.dnssec.hashlib = saved
             log, Rec.log = Rec.log, None
             if len(log) != 1:
                 return Err(903, "make_ds did not hash exactly once")
             real = {1: hashlib.sha1, 2: hashlib.sha256, 4: hashlib.sha384}[dt](log[0]).digest()
-            ds2 = dns.dnssec.make_ds(N(owner), k, {1: "sha1", 2: "SHA256", 4: "Sha384"}[dt], policy=dns.dnssec.allow_all_policy)
+            ds2 = dns.dnssec.make_ds(N(owner), k, {1: "sha1", 2: "SHA256", 4: "Sha384"}[dt], origin=nl.oname(origin), policy=dns.dnssec.allow_all_policy)
             ok = int(ds.digest == real and ds2 == ds)
             if dt != 1:  # SHA-1 creation is denied by the default policy used by make_cds
                 cds = dns.dnssec.make_cds(N(owner), k, dt)
@@ -1290,8 +1364,25 @@ def oracle(ctx, kind, case, out):
                     pass
                 elif out != exp:
                     fail("RRSIG signing input differs from RFC 4034 3.1.8.1 / RFC 4035 5.3.2", expected=exp, rdtype=ty, sig="rrsig")
+    elif op == 11:
+        _, text, origin, flags, protocol, alg, key, dt, labels = case
+        if dt in (1, 2, 4):
+            rdata = struct.pack("!HBB", flags, protocol, alg) + bytes(key)
+            owner = r_expand(labels, origin) if labels else (list(origin) if origin is not None and r_abs(origin) else None)
+            exp = ref_ds_input(owner, rdata) if owner is not None else None
+            if exp is not None:
+                if err:
+                    fail("make_ds raised on a valid textual owner name", sig="dstext-exc")
+                else:
+                    if out[0] != exp:
+                        fail("DS digest input differs from RFC 4034 5.1.4: a textual owner name must be completed with the origin ('@' is the origin)",
+                             expected=exp, sig="dstext-input")
+                    if out[1] != ref_keytag(rdata, alg) or out[2] != alg or out[3] != dt:
+                        fail("DS key tag / algorithm / digest type fields wrong", sig="dstext-fields")
+                    if out[4] != 1:
+                        fail("make_ds / make_cds / dnskey_rdataset_to_cds_rdataset / make_ds_rdataset disagree, or the digest is not the hash of its input", sig="dstext-digest")
     elif op == 4:
-        _, owner, flags, protocol, alg, key, dt = case
+        _, owner, flags, protocol, alg, key, dt, _origin = case
         if dt in (1, 2, 4) and all(0 <= v < lim for v, lim in ((flags, 65536), (protocol, 256), (alg, 256))):
             rdata = struct.pack("!HBB", flags, protocol, alg) + bytes(key)
             exp = ref_ds_input(owner, rdata)
